@@ -106,6 +106,13 @@ def run(prop, tier, seed, **kw):
         rnd.shuffle(filters)
         filters = filters[:700]
     pairs = narrowings(filters, rnd, 500 if tier == "quick" else 6000)
+    # time-only filters whose bounds are stored timestamps, narrowed by one condition: the bare window is served by the
+    # created_at range scan, the narrowed one by an index scan - their treatment of the bounds must not make g exceed f
+    for tm in ({"since": 20}, {"until": 20}, {"since": 20, "until": 21}, {"since": 20, "until": 20}, {"until": 30}, {"since": 30},
+               {"since": 19, "until": 31}, {"since": 10, "until": 60}):
+        for cond in ({"authors": ["D"]}, {"authors": ["A", "B"]}, {"kinds": [1]}, {"kinds": [1, 7]}, {"tags": {"t": ["a"]}},
+                     {"tags": {"t": ["x"]}}, {"authors": ["D"], "kinds": [1]}, {"ids": ["s1", "s2", "q2"]}):
+            pairs.append((dict(tm), dict(tm, **cond)))
     # every filter that takes part in a pair or a union must be answered
     multi = [f for f in filters if any(len(f.get(k, [])) > 1 for k in ("ids", "authors", "kinds")) or any(len(v) > 1 for v in f.get("tags", {}).values())]
     unions = []
